@@ -10,9 +10,9 @@ trap 'git -C /repo worktree remove --force "$wt" >/dev/null 2>&1; rm -rf "$wt"; 
 demo=$(ls "$sd"/*_test.go | head -1)
 mod="$wt"; case "$pkg" in v2/*) mod="$wt/v2"; rel="./${pkg#v2/}";; *) rel="./$pkg";; esac
 cp "$demo" "$wt/$pkg/zz_seed_demo_test.go"
-( cd "$mod" && go test -vet=off -count=1 "$rel" >/tmp/evalseed.pre 2>&1 ); pre=$?
+( cd "$mod" && go test ${SEED_TESTFLAGS:-} -vet=off -count=1 "$rel" >/tmp/evalseed.pre 2>&1 ); pre=$?
 git -C "$wt" apply "$sd/patch.diff" || { echo "PATCH DOES NOT APPLY"; exit 9; }
-( cd "$mod" && go test -vet=off -count=1 "$rel" >/tmp/evalseed.post 2>&1 ); post=$?
+( cd "$mod" && go test ${SEED_TESTFLAGS:-} -vet=off -count=1 "$rel" >/tmp/evalseed.post 2>&1 ); post=$?
 rm "$wt/$pkg/zz_seed_demo_test.go"
 ( cd "$wt" && go build ./... >/dev/null 2>&1; go test -vet=off -count=1 ./... 2>&1 | grep -v "no test files" | grep -v "^ok" ; cd v2 && go test -vet=off -count=1 ./... 2>&1 | grep -v "no test files\|internal/tests\|^ok" ) > /tmp/evalseed.suite
 echo "demo without patch: exit $pre (want 0); with patch: exit $post (want != 0); existing suite failures with patch:"; cat /tmp/evalseed.suite | head -5
